@@ -19,15 +19,15 @@ def sNats (l : List Nat) : Sexp := list (l.map fun i => atom (toString i))
 
 def sArr (a : Arr) : Sexp := list [sNats a.shape, list (a.dims.map fun d => atom (hHex d)), sInts a.data, atom (toString a.den)]
 
-def meanChain (a : Arr) : List Nat → Except Exc Arr
+def meanChain (a : Arr) : List Int → Except Exc Arr
   | [] => .ok a
-  | k :: ks => match meanArr a k with
+  | k :: ks => match meanAxis a k with
     | .ok b => meanChain b ks
     | .error e => .error e
 
-def meanGridChain (g : GridA) : List Nat → Except Exc GridA
+def meanGridChain (g : GridA) : List Int → Except Exc GridA
   | [] => .ok g
-  | k :: ks => match meanGrid g k with
+  | k :: ks => match meanGridAxis g k with
     | .ok b => meanGridChain b ks
     | .error e => .error e
 
@@ -74,12 +74,20 @@ def handleSsf : List Sexp → Option String
     pure (toString (argSexp (parseCall cs.length cs)))
   | [atom "ssf-mean", list sh, list dims, list data, list axes] => do
     let a : Arr := ⟨← sh.mapM asNat?, ← dims.mapM hStr?, ← data.mapM asInt?, 1⟩
-    match meanChain a (← axes.mapM asNat?) with
+    match meanChain a (← axes.mapM asInt?) with
+    | .ok r => pure (toString (sArr r))
+    | .error e => pure ("(err " ++ hExc e ++ ")")
+  | [atom "ssf-meaneval", c, v, list sh, list dims, list data] => do
+    -- the call TEXT, parsed by `parseCall` (eval_function's own fuel) and evaluated by `evalMean`; `v` names the array
+    let a : Arr := ⟨← sh.mapM asNat?, ← dims.mapM hStr?, ← data.mapM asInt?, 1⟩
+    let cs ← hStr? c
+    let vn ← hStr? v
+    match evalMean (fun s => if s = vn then some a else none) (parseCall cs.length cs) with
     | .ok r => pure (toString (sArr r))
     | .error e => pure ("(err " ++ hExc e ++ ")")
   | [atom "ssf-meangrid", list sh, list dims, list data, list maps, list axes] => do
     let a : Arr := ⟨← sh.mapM asNat?, ← dims.mapM hStr?, ← data.mapM asInt?, 1⟩
-    match meanGridChain ⟨a, ← maps.mapM sMap?⟩ (← axes.mapM asNat?) with
+    match meanGridChain ⟨a, ← maps.mapM sMap?⟩ (← axes.mapM asInt?) with
     | .ok r => pure (toString (list [sArr r.array, list (r.maps.map fun m => list [atom (hHex m.1), sInts m.2])]))
     | .error e => pure ("(err " ++ hExc e ++ ")")
   | [atom "ssf-bounds", list cols, list [x0, x1, y0, y1, z0, z1], list rows] => do
